@@ -39,3 +39,54 @@ contract(F, "ParallelSpecFinder._create_spec", props=["C13"],
          ensures=["result.root == pi.root_class"],
          modifies=["all:Obj('SpecificationRuleExtractor')", "all:Obj('CombinatorialSpecification')"],
          notes="start classes that are not their own representative get a specification rooted at the start class")
+
+# ---- EqPathParallelSpecFinder._eq_path_matches: two equivalence paths match only if they have the same number of
+# non-equivalence steps and the steps match pairwise (a path that is a proper prefix of the other does NOT match)
+FRX = "comb_spec_searcher/specification_extrator.py"
+SpecMap = Dict(Int, Seq(Int))
+PathKey = Tup(Seq(Int), Seq(Int))
+PairKey = Tup(Int, Int)
+EqCache = DefaultDict(PairKey, DefaultDict(PairKey, Dict(PathKey, Bool)))
+REG.classes["ParallelInfo"].fields.update({})
+klass(F, "EqPathParallelSpecFinder", fields={"_pi1": Obj("ParallelInfo"), "_pi2": Obj("ParallelInfo")})
+import z3 as _z3
+from pyvc.core import Val as _Val
+
+
+def _rule_match(ex, st, a, b):
+    return _Val(Bool, _z3.Function("rule_match", _z3.IntSort(), _z3.IntSort(), _z3.BoolSort())(a.z, b.z))
+
+
+spec_fn("rule_match", _rule_match)
+contract(F, "EqPathParallelSpecFinder._rule_match", source="ParallelSpecFinder._rule_match", props=["C13"], verify=False,
+         trusted_reason="comparison of two rules (strategy classes, constructors, parameter maps): a deterministic relation "
+                        "on rules, checked by the bounded stand-in",
+         params={"self": Obj("EqPathParallelSpecFinder"), "rule1": Obj("Rule"), "rule2": Obj("Rule")}, returns=Bool,
+         ensures=["result == rule_match(rule1, rule2)"], modifies=[])
+contract(FRX, "EquivalenceRuleExtractor.__init__", props=["C13"], verify=False,
+         trusted_reason="constructor summary (rule extraction along one equivalence path): covered under C02 and bounded",
+         params={"self": Obj("EquivalenceRuleExtractor"), "root_label": Int, "start_label": Int, "root_node": Node,
+                 "ruledb": Obj("RuleDBBase"), "classdb": Obj("ClassDB"), "eq_label": Int, "parent_eq_label": Int, "idx": Int},
+         may_raise=["AssertionError", "KeyError"], modifies=["*self"], self_invariant=False)
+contract(FRX, "EquivalenceRuleExtractor.nonequivalent_rules_in_equiv_path", props=["C13"], verify=False,
+         trusted_reason="the non-equivalence rules along the path, in order (bounded stand-in)",
+         params={"self": Obj("EquivalenceRuleExtractor")}, returns=Seq(Obj("Rule")), modifies=[], self_invariant=False)
+klass(FRX, "EquivalenceRuleExtractor", fields={})
+
+contract(F, "EqPathParallelSpecFinder._create_tree", source="ParallelSpecFinder._create_tree", props=["C13"], verify=False,
+         trusted_reason="inherited static method (same summary as ParallelSpecFinder._create_tree)",
+         params={"d": Dict(Int, Seq(Int)), "root_eq_label": Int}, returns=Node, ensures=["result.label == root_eq_label"])
+_KEY = "cache[(id1, id2)][(pid1, pid2)]"
+contract(F, "EqPathParallelSpecFinder._eq_path_matches", props=["C13"],
+         params={"self": Obj("EqPathParallelSpecFinder"), "id1": Int, "id2": Int, "pid1": Int, "pid2": Int, "idx1": Int,
+                 "idx2": Int, "sp1": SpecMap, "sp2": SpecMap, "cache": EqCache},
+         returns=Bool, requires=["id1 in sp1", "id2 in sp2"],
+         may_raise=["AssertionError", "KeyError"],
+         ghost_stmts={"after:assign#4": [
+             "assert implies(len(path1) != len(path2), not children_cache[children])",
+             "assert implies(len(path1) == len(path2), children_cache[children] == forall(lambda i: implies(0 <= i and "
+             "i < len(path1), rule_match(path1[i], path2[i]))))"]},
+         ensures=["result == " + _KEY + "[(sp1[id1], sp2[id2])]"],
+         modifies=["*cache", "all:DefaultDict(Tup(Int, Int), Dict(Tup(Seq(Int), Seq(Int)), Bool))",
+                   "all:Dict(Tup(Seq(Int), Seq(Int)), Bool)", "all:Obj('EquivalenceRuleExtractor')"],
+         notes="the cached verdict for a pair of paths is: same length AND pairwise matching steps")
